@@ -1,4 +1,5 @@
 import KVerif.Lemmas.KeyId
+import KVerif.Gen.SeqConsts
 /-!
 # C11 — key identity: every key name and code survives the trip from config to OS output
 
@@ -78,6 +79,21 @@ theorem names_functional (n c : Nat) (h : (n, c) ∈ defaultMappings ++ nameArms
   strToOscode_of_mem h
 
 example : (encName [108, 115, 102, 116] /- "lsft" -/, 42) ∈ defaultMappings ++ nameArms ∧ (encName [8249, 8679] /- "‹⇧" -/, 42) ∈ defaultMappings ++ nameArms := by
+  decide +kernel
+
+/-- **overlap_marker_is_a_nameable_key_counterexample** [t8] (known finding, remark R7; "a key name
+    denotes the same code wherever it is written" is FALSE for one name).  The key code the parser
+    uses internally as the `O-` marker of defseq (`KEY_OVERLAP = KeyCode::ErrorRollOver`, regenerated
+    as `Gen.SEQ_KEY_OVERLAP`) is the code the key name `dnd` (alias `DoNotDisturb`) denotes.  As a
+    plain action `dnd` is key 251; written as the key of an output chord (`C-dnd`), as a macro item
+    or inside a defseq key list the parser takes it for the marker and refuses the configuration
+    ("O- is only valid in sequences", "macro contains O-", "O-(...) lists must have a minimum of 2
+    elements") - on the real code: the `pipe-contexts` family of the C11 check. -/
+theorem overlap_marker_is_a_nameable_key_counterexample :
+    strToOscode defaultCustom (encName [100, 110, 100] /- "dnd" -/) = some Gen.SEQ_KEY_OVERLAP ∧
+    strToOscode defaultCustom (encName [68, 111, 78, 111, 116, 68, 105, 115, 116, 117, 114, 98] /- "DoNotDisturb" -/) =
+      some Gen.SEQ_KEY_OVERLAP ∧
+    accepted Gen.SEQ_KEY_OVERLAP = true := by
   decide +kernel
 
 /-- Every built-in key name denotes a code kanata knows — not 0, not the no-op key code, and small
